@@ -47,12 +47,10 @@ def _concat(args, ignore_index=False):
     # inconsistent dtypes in results between empty and non-empty frames.
     # Ideally this would be handled locally for each operation, but in practice
     # this seems easier. TODO: don't do this.
-    args2 = [i for i in args if len(i)]
-    return (
-        args[0]
-        if not args2
-        else methods.concat(args2, uniform=True, ignore_index=ignore_index)
-    )
+    # If all partitions are empty they can still have different dtypes, we take
+    # all of them to arrive at the common dtype instead of the first one
+    args2 = [i for i in args if len(i)] or args
+    return methods.concat(args2, uniform=True, ignore_index=ignore_index)
 
 
 def split_evenly(df, k):
